@@ -37,7 +37,14 @@ func renderChannel(c *girc.Channel) string {
 			args = append(args, string(m)+"!")
 		}
 	}
-	return fmt.Sprintf("%s|%s|%q|%s|%v", c.Name, c.Topic, c.UserList, c.Modes.String(), args)
+	// … and the snapshot's own membership answers (they speak about the snapshot's list, not about the tracked state)
+	var in []string
+	for _, n := range []string{"bob", "Carl", "dave", "Eve[1]", "zed", "bob2", "carl2", "dave2", "zed2", "me"} {
+		if c.UserIn(n) {
+			in = append(in, n)
+		}
+	}
+	return fmt.Sprintf("%s|%s|%q|%s|%v|len=%d in=%v", c.Name, c.Topic, c.UserList, c.Modes.String(), args, c.Len(), in)
 }
 
 type snapSet struct {
